@@ -6,7 +6,8 @@
 #   tools/selftest.sh [props...]      (default: all claimed)
 cd "$(dirname "$0")/.." || exit 2
 props=${@:-C03 C06 C09 C12 C13 C14 C15 C18 C20}
-mkdir -p .cache/selftest
+mkdir -p .cache/selftest/out
+export VERIF_OUT="$(pwd)/.cache/selftest/out"   # the real evidence/ is left alone
 fail=0
 for p in $props; do
   ref=""
@@ -16,7 +17,7 @@ for p in $props; do
       out=.cache/selftest/$p-$1-$2-$seed.log
       VERIF_SEED=$seed VERIF_WORKERS=$1 GOMAXPROCS=$2 VERIF_QUICK_RUNS=${VERIF_SELFTEST_RUNS:-120} ./check.sh $p quick > $out 2>&1
       rc=$?
-      fp=$(python3 -c "import json;print(json.load(open('evidence/$p.json'))['coverage'].get('batch_fingerprint'))")
+      fp=$(python3 -c "import json;print(json.load(open('.cache/selftest/out/evidence/$p.json'))['coverage'].get('batch_fingerprint'))")
       key="$p seed=$seed"
       eval "prev=\${fp_${p}_${seed}:-}"
       if [ -z "$prev" ]; then
